@@ -5,8 +5,12 @@ import ParryModel.Vec
 `utils/point_in_triangle.rs`.  Literal transliteration (same branch order, comparison strictness and
 floating-point operation order).  Everything lives in `Model.C15` so that it cannot clash with other properties.
 
-**Corrected behaviour** (genuine defect on the pinned tree, see `fixes/C15-segments-onvertex.diff`):
-`segments_intersection2d` tests `s == denom` / `t == denom` where `== 1.0` is meant; the model has `== 1`.
+**Corrected behaviour** (genuine defects on the pinned tree):
+* `segments_intersection2d` tests `s == denom` / `t == denom` where `== 1.0` is meant; the model has `== 1`
+  (`fixes/C15-segments-onvertex.diff`);
+* `convex_polygons_intersection*`: when neither boundary crosses the other and the two polygons enclose each other
+  (identical regions) both containment tests succeed and the polygon is output twice; the model stops after the first
+  (`fixes/C15-convex-intersection-identical.diff`).
 -/
 namespace Model.C15
 open Model
@@ -193,5 +197,149 @@ def isPointInTriangle (p v1 v2 v3 : V2 K) : InTri :=
   let has_ccw := d1 = .ccw ∨ d2 = .ccw ∨ d3 = .ccw
   if d1 = .none ∧ d2 = .none ∧ d3 = .none then .invalid
   else .some (!(decide has_cw && decide has_ccw))
+
+
+/-! ## `transformation/polygon_intersection.rs`: convex polygons (O'Rourke's advance rule) -/
+
+/-- `PolylinePointLocation` -/
+inductive PolyLoc (K : Type) where
+  | onVertex (i : Nat)
+  | onEdge (i j : Nat) (u v : K)
+deriving Repr
+
+/-- `InFlag` -/
+inductive InFlag where
+  | poly1IsInside | poly2IsInside | unknown
+deriving DecidableEq, Repr
+
+@[inline] def ppt (pts : Array (V2 K)) (i : Nat) : V2 K := pts.getD i ⟨0, 0⟩
+
+/-- `PolylinePointLocation::from_segment_point_location(a, b, loc)` (`OnVertex(_)` with index > 1 is `unreachable!`) -/
+def PolyLoc.ofSegLoc (a b : Nat) : SegLoc K → PolyLoc K
+  | .onVertex i => if i = 0 then .onVertex a else .onVertex b
+  | .onEdge u v => .onEdge a b u v
+
+/-- `PolylinePointLocation::to_point(pts)`: `pts[i1] * bcoords[0] + pts[i2].coords * bcoords[1]` -/
+def PolyLoc.toPoint (pts : Array (V2 K)) : PolyLoc K → V2 K
+  | .onVertex i => ppt pts i
+  | .onEdge i j u v => ((ppt pts i).smul u).add ((ppt pts j).smul v)
+
+abbrev OutPair (K : Type) := Option (PolyLoc K) × Option (PolyLoc K)
+
+/-- loop state of `convex_polygons_intersection_with_tolerances` -/
+structure CvxState (K : Type) where
+  i1 : Nat
+  i2 : Nat
+  nsteps1 : Nat
+  nsteps2 : Nat
+  inflag : InFlag
+  firstPointFound : Bool
+  out : Array (OutPair K)
+
+/-- the `while` loop; returns the state and `true` if the function `return`ed from inside the loop.
+Every iteration advances `nsteps1` or `nsteps2` (reset once to 0), so `4(len1+len2)+4` iterations of fuel suffice. -/
+def cvxLoop (poly1 poly2 : Array (V2 K)) (eps : K) (rev1 rev2 : Bool) : Nat → CvxState K → CvxState K × Bool
+  | 0, st => (st, false)
+  | fuel + 1, st =>
+    let len1 := poly1.size
+    let len2 := poly2.size
+    if !((decide (st.nsteps1 < len1) || decide (st.nsteps2 < len2)) && decide (st.nsteps1 < 2 * len1)
+          && decide (st.nsteps2 < 2 * len2)) then (st, false) else
+    let (a1, b1) := if rev1 then ((len1 - st.i1) % len1, len1 - st.i1 - 1) else ((st.i1 + len1 - 1) % len1, st.i1)
+    let (a2, b2) := if rev2 then ((len2 - st.i2) % len2, len2 - st.i2 - 1) else ((st.i2 + len2 - 1) % len2, st.i2)
+    let dirEdge1 := (ppt poly1 b1).sub (ppt poly1 a1)
+    let dirEdge2 := (ppt poly2 b2).sub (ppt poly2 a2)
+    let cross := orientation2d (⟨0, 0⟩ : V2 K) dirEdge1 dirEdge2 eps
+    let a2_b2_b1 := orientation2d (ppt poly2 a2) (ppt poly2 b2) (ppt poly1 b1) eps
+    let a1_b1_b2 := orientation2d (ppt poly1 a1) (ppt poly1 b1) (ppt poly2 b2) eps
+    -- If edge1 & edge2 intersect, update inflag.
+    let r : CvxState K × Bool :=
+      match segmentsIntersection2d (ppt poly1 a1) (ppt poly1 b1) (ppt poly2 a2) (ppt poly2 b2) eps with
+      | some (.point loc1 loc2) =>
+        if a2_b2_b1 ≠ .degenerate ∧ a1_b1_b2 ≠ .degenerate then
+          let st := { st with out := st.out.push (some (PolyLoc.ofSegLoc a1 b1 loc1), some (PolyLoc.ofSegLoc a2 b2 loc2)) }
+          let st := if st.inflag = .unknown ∧ st.firstPointFound = false then
+                      { st with nsteps1 := 0, nsteps2 := 0, firstPointFound := true } else st
+          let st := if a2_b2_b1 = .ccw then { st with inflag := .poly1IsInside }
+                    else if a1_b1_b2 = .ccw then { st with inflag := .poly2IsInside } else st
+          (st, false)
+        else (st, false)
+      | some (.segment f1 f2 s1 s2) =>
+        if dirEdge1.dot dirEdge2 < 0 then
+          let st := { st with out := (st.out.push (some (PolyLoc.ofSegLoc a1 b1 f1), some (PolyLoc.ofSegLoc a2 b2 f2))).push
+                                        (some (PolyLoc.ofSegLoc a1 b1 s1), some (PolyLoc.ofSegLoc a2 b2 s2)) }
+          (st, true)
+        else (st, false)
+      | none => (st, false)
+    if r.2 then r else
+    let st := r.1
+    let adv1 (st : CvxState K) : CvxState K := { st with nsteps1 := st.nsteps1 + 1, i1 := (st.i1 + 1) % len1 }
+    let adv2 (st : CvxState K) : CvxState K := { st with nsteps2 := st.nsteps2 + 1, i2 := (st.i2 + 1) % len2 }
+    let emit1 (st : CvxState K) : CvxState K :=
+      if st.inflag = .poly1IsInside then { st with out := st.out.push (some (.onVertex b1), none) } else st
+    let emit2 (st : CvxState K) : CvxState K :=
+      if st.inflag = .poly2IsInside then { st with out := st.out.push (none, some (.onVertex b2)) } else st
+    -- Special case: edge1 & edge2 parallel and separated.
+    if cross = .degenerate ∧ a2_b2_b1 = .cw ∧ a1_b1_b2 = .cw then (st, true)
+    -- Special case: edge1 & edge2 collinear.
+    else if cross = .degenerate ∧ a2_b2_b1 = .degenerate ∧ a1_b1_b2 = .degenerate then
+      cvxLoop poly1 poly2 eps rev1 rev2 fuel (if st.inflag = .poly1IsInside then adv2 st else adv1 st)
+    -- Generic cases.
+    else if cross = .ccw then
+      if a1_b1_b2 = .ccw then cvxLoop poly1 poly2 eps rev1 rev2 fuel (adv1 (emit1 st))
+      else cvxLoop poly1 poly2 eps rev1 rev2 fuel (adv2 (emit2 st))
+    else
+      if a2_b2_b1 = .ccw then cvxLoop poly1 poly2 eps rev1 rev2 fuel (adv2 (emit2 st))
+      else cvxLoop poly1 poly2 eps rev1 rev2 fuel (adv1 (emit1 st))
+
+/-- the O(n²) containment test: `(orient, ok)` after scanning every edge of `polyA` against every point of `polyB`
+(the `break` leaves only the inner loop) -/
+def containScan (polyA polyB : Array (V2 K)) (eps : K) : Bool :=
+  let lenA := polyA.size
+  let r := (List.range lenA).foldl (fun (acc : TriOrient × Bool) a =>
+    let aMinus1 := (a + lenA - 1) % lenA
+    -- inner loop with `break`
+    let rec inner : List (V2 K) → TriOrient × Bool → TriOrient × Bool
+      | [], acc => acc
+      | p :: ps, (orient, ok) =>
+        let newOrient := orientation2d (ppt polyA aMinus1) (ppt polyA a) p eps
+        if orient = .degenerate then inner ps (newOrient, ok)
+        else if newOrient ≠ orient ∧ newOrient ≠ .degenerate then (orient, false)
+        else inner ps (orient, ok)
+    inner polyB.toList acc) (TriOrient.degenerate, true)
+  r.2
+
+/-- `convex_polygons_intersection_with_tolerances(poly1, poly2, tolerances, out)`: the emitted location pairs -/
+def convexPolygonsIntersection (poly1 poly2 : Array (V2 K)) (eps : K) : Array (OutPair K) :=
+  let len1 := poly1.size
+  let len2 := poly2.size
+  let rev1 := decide (2 < len1) && decide (orientation2d (ppt poly1 0) (ppt poly1 1) (ppt poly1 2) eps = .cw)
+  let rev2 := decide (2 < len2) && decide (orientation2d (ppt poly2 0) (ppt poly2 1) (ppt poly2 2) eps = .cw)
+  let st0 : CvxState K := ⟨0, 0, 0, 0, .unknown, false, #[]⟩
+  let (st, returned) := cvxLoop poly1 poly2 eps rev1 rev2 (4 * (len1 + len2) + 4) st0
+  if returned then st.out else
+  if st.firstPointFound then st.out else
+  -- No intersection: test if one polygon completely encloses the other.
+  let out := st.out
+  if containScan poly1 poly2 eps then
+    -- **corrected**: the pinned tree falls through to the symmetric test and, for polygons that enclose each other
+    -- (identical regions), outputs the polygon twice
+    (List.range len2).foldl (fun (o : Array (OutPair K)) b =>
+      o.push (none, some (.onVertex (if rev2 then len2 - b - 1 else b)))) out
+  else if containScan poly2 poly1 eps then
+    (List.range len1).foldl (fun (o : Array (OutPair K)) a =>
+      o.push (some (.onVertex (if rev1 then len1 - a - 1 else a)), none)) out
+  else out
+
+/-- `PolygonIntersectionTolerances::default().collinearity_epsilon = f64::EPSILON * 100` -/
+@[inline] def defaultCollinearityEps : K := epsMach * lit 100
+
+/-- `convex_polygons_intersection_points_with_tolerances(poly1, poly2, tolerances, out)` -/
+def convexPolygonsIntersectionPoints (poly1 poly2 : Array (V2 K)) (eps : K) : Array (V2 K) :=
+  (convexPolygonsIntersection poly1 poly2 eps).filterMap fun (l1, l2) =>
+    match l1, l2 with
+    | some l, _ => some (l.toPoint poly1)
+    | none, some l => some (l.toPoint poly2)
+    | none, none => none
 
 end Model.C15
